@@ -316,7 +316,7 @@ def parse_proxy_headers(
 
 
 def strip_brackets(addr):
-    if addr[0] == "[" and addr[-1] == "]":
+    if addr.startswith("[") and addr.endswith("]"):
         return addr[1:-1]
     return addr
 
